@@ -87,6 +87,15 @@ def run_case(ctx, work, s, k, edit_target=0):
     ref, _, _ = parse_dir(d2, names, None)
     return dict(out=out, trace=trace, fired=fired, before=before, after=after, leftovers=leftovers, out2=out2, ref=ref, after2=sorted(os.listdir(d)), names=names)
 
+def plain_outcome(ctx, work, s):
+    """the same document set parsed without any interception"""
+    from opcua_tools.nodeset_parser import parse_xml_files
+    d = os.path.join(work, "plain"); shutil.rmtree(d, ignore_errors=True)
+    files = [(n, doc if isinstance(doc, str) else docs.render(doc, ctx.rng)) for n, doc in s["files"]]
+    write_docs(d, files)
+    try: parse_xml_files([os.path.join(d, n) for n, _ in files]); return ["ok"]
+    except BaseException as e: return ["err", type(e).__name__]
+
 def run_filtered_case(ctx, work):
     """a parse of two files WITH a namespace list fails in the first file; both files are then replaced (the first repaired, the second now another
     namespace) and the same paths are parsed again with the matching list: the result must be that of a parse of the same bytes in a fresh place"""
@@ -138,9 +147,10 @@ def check(ctx):
             # failure-free trace first
             r0 = run_case(ctx, work, s, None)
             total = sum(1 for l, fin in r0["trace"] if not fin)
-            if s["bad"] is None and r0["out"][0] != "ok":
-                # the interception no longer carries the code: nothing below would mean anything
-                ctx.disagree("trace", dict(set=si, k=None), r0["out"], ["ok"])
+            # the interception must carry the code: the failure-free run under the proxies ends as the plain call on the same files does
+            plain = plain_outcome(ctx, work, s)
+            if r0["out"][:2] != plain[:2] and not (r0["out"][0] == "ok" and plain[0] == "ok"):
+                ctx.disagree("trace", dict(set=si, k=None), r0["out"][:2], plain[:2])
             for k in [None] + list(range(total + 1)):
                 r = r0 if k is None else run_case(ctx, work, s, k)
                 # which file / which model index
